@@ -301,6 +301,28 @@ def _run(ck, m):
             ck.ob('C15.e', 'dispatcher', 'Acknowledge:arguments', ok,
                   'acknowledge(%s, %s)' % (d1, d2), ev.loc())
     ck.floor('C15.e', n, 1, 'calls to the acknowledge function in the Acknowledge arm')
+    # an acknowledgement is counted whatever the node's role is at that moment: the election registers its candidacy copies while the node is
+    # StartingUp and waits for exactly these acknowledgements; a node demoted a moment ago still owes its table the late ones
+    ck.rule('C15.k', 'an acknowledgement that arrives is always handed to the pending table: in the Acknowledge arm no test of the node\'s own state '
+                     '(is_primary / role / eligibility, or any other crate function) decides whether the acknowledge function is called — acks '
+                     'received while the node is not primary (during its own election, just after a demotion) would be dropped and their operations '
+                     'stay pending for ever')
+    nk = 0
+    for ev in raw:
+        if ev.kind == 'local-call' and ev.name in ackers:
+            nk += 1
+            body = ev.frame.body
+            bad = []
+            for sw in locks.controlling_switches(body, ev.bi):
+                calls_, _params = locks.backward_slice(body, body.term(sw)['o'], control=True)
+                for c in sorted(calls_):
+                    if P.bodies.get(callee(body.term(c))) is not None:
+                        bad.append('%s (%s)' % (short(callee(body.term(c))), body.loc(c)))
+            ck.ob('C15.k', 'dispatcher', 'Acknowledge:counted-whatever-the-role', not bad,
+                  'the acknowledge function is called on every path of the arm that passed the administrator check' if not bad else
+                  'the call of the acknowledge function is decided by %s: an acknowledgement that arrives in the other state is answered Ok and '
+                  'dropped' % sorted(set(bad)), ev.loc())
+    ck.floor('C15.k', nk, 1, 'calls to the acknowledge function in the Acknowledge arm')
 
 
 def const_sources(b, local, _seen=None):
